@@ -273,6 +273,28 @@ def lifetime(which: int, v: int, w: int) -> bool:
     elif which == 4:     # Spec(scope=) overrides for its subtree only
         spec = (S(k=Val(v)), {'in': Spec(rd, scope={'k': w}), 'out': rd})
         ok = glom(1, spec, glom_debug=True) == {'in': w, 'out': v}
+    elif which == 6:     # every way of declaring Vars: what one call wrote is gone in the next call of the SAME spec object,
+        #                  and the mapping handed to Vars(...) is never written to
+        ok = True
+        for form in range(5):
+            base = {'n': 0} if form == 1 else ({} if form == 2 else {'b': 2})
+            base_snap = dict(base)
+            vs = [Vars(), Vars(base), Vars(base), Vars(n=0), Vars(base, c=3)][form]
+            spec = (S(vars=vs), [A.vars.last], {'last': Coalesce(S.vars.last, default=UNBOUND), 'all': (S.vars, dict)})
+            first = glom([v, w], spec, glom_debug=True)
+            second = glom([], spec, glom_debug=True)
+            decl = [{}, base_snap, base_snap, {'n': 0}, dict(base_snap, c=3)][form]
+            ok = ok and first['last'] == w and second == {'last': UNBOUND, 'all': decl} and base == base_snap
+            if not ok:
+                return fail(why='Vars state outlived its call (or the declared mapping was written to)', form=form, first=first, second=second, base=base)
+    elif which == 7:     # ONE S(...) call with several keywords: every value spec is evaluated in the scope as it was
+        #                  BEFORE the call -- a keyword never sees its sibling's new binding
+        got = glom(1, (S(x=Val('outer')), S(x=Val(v), y=S['x']), {'x': S['x'], 'y': S['y']}), glom_debug=True)
+        got2 = glom(1, (S(x=Val(v), y=Coalesce(S['x'], default=UNBOUND)), {'x': S['x'], 'y': S['y']}), glom_debug=True)
+        got3 = glom(1, (S(a=Val(v), b=Val(w)), S(a=S['b'], b=S['a']), {'a': S['a'], 'b': S['b']}), glom_debug=True)
+        ok = got == {'x': v, 'y': 'outer'} and got2 == {'x': v, 'y': UNBOUND} and got3 == {'a': w, 'b': v}
+        if not ok:
+            return fail(why='keywords of one S(...) call see each other', got=got, got2=got2, got3=got3)
     else:                # caller value shadowed inside, intact outside
         spec = {'a': (S(k0=Val(v)), S['k0']), 'b': S['k0']}
         ok = glom(1, spec, scope=caller, glom_debug=True) == {'a': v, 'b': w}
@@ -374,7 +396,7 @@ def obligations(tier):
                 pre = '0 <= b0 <= 3 and 0 <= b1 <= 3'
             obs.append(Ob(visibility, fixed=fx, pre=pre, name='shadow_%s_%s' % (KIND_NAMES[root], 'leaf' if c0 == LEAF else KIND_NAMES[c0]), timeout=150))
     obs.append(Ob(switch_matchdict, pre='0 <= which <= 5', name='switch_matchdict'))
-    obs.append(Ob(lifetime, pre='0 <= which <= 5', name='lifetime'))
+    obs.append(Ob(lifetime, pre='0 <= which <= 7', name='lifetime'))
     obs.append(Ob(ref_nearest, pre='0 <= depth <= 3', name='ref_nearest'))
     obs.append(Ob(none_values, pre='0 <= which <= 4 and 0 <= style <= 1', name='none_values'))
     tp = ck.format(v='c0') + ' and ' + ck.format(v='c1') + ' and 0 <= b0 <= 3'
